@@ -607,6 +607,9 @@ func effectRows(c *Ctx, fn *ssa.Function) []siteRow {
 				if isLoggingCall(n) {
 					return // diagnostics have no protocol effect: adding or rewording a log line is not a deviation
 				}
+				if debugTextOnly(normRef(n)) {
+					return // String() of a frame/setting type: its value shows in the text it is used in
+				}
 				if _, isCall := i.(*ssa.Call); isCall && isPureStdValueCall(n) {
 					return // computes a value from its arguments and nothing else: the value is rendered where it is used
 				}
